@@ -162,7 +162,7 @@ def C15(ctx):
 
 
 def C13(ctx):
-    std_check(ctx, [dict(harness="c13", aliases=["c13_distances"], cases=(700, 2800), max_ops=14)])
+    std_check(ctx, [dict(harness="c13", aliases=["c13_distances"], cases=(1000, 4000), max_ops=14)])
 
 
 def C14(ctx):
